@@ -56,4 +56,13 @@ theorem C06_serial_resync (segs : List Seg) (hok : ∀ sg ∈ segs, sg.Ok) (junk
       Emit.panic ∉ outsJ ∧ ProbeOutcome a b outs :=
   Ross.serial_resync segs hok junk a b ha hb hs
 
+/-- "without blocking forever": over junk made of whole link frames followed by the two probes, no call of the USART
+receiver spins (no `blocked` entry), for every placement of would-blocks -/
+theorem C06_usart_never_blocked (junk : List (List UInt8)) (hj : ∀ x ∈ junk, x.length ≤ 255) (a b : Packet)
+    (ha : a.data.length ≤ 28672) (hb : b.data.length ≤ 28672) (s : List ByteItem)
+    (hs : s.filter notWouldBlock = (wireOf (junk ++ usartBodies a ++ usartBodies b)).map .byte) :
+    Out.blocked ∉ usartPolls LinkSt.init s := by
+  obtain ⟨outsJ, outs, h, _, _⟩ := Ross.usart_resync junk hj a b ha hb s hs
+  exact no_blocked_of_emitsOf _ _ h
+
 end Ross.Props
